@@ -291,6 +291,9 @@ def nan_rule(P, R):
 
 def run(P, R, tier):
     casekey_rule(P, R)
+    from .c04 import _Renamed
+    from . import c14 as C14
+    C14.overwrite_rule(P, _Renamed(R, "C14.overwrite", "C10.rawstore"), KN.get(P))
     R.undecided += [
         "(e) dump -> read -> dump is a textual fixed point (number formatting / precision)",
         "(f) follow-up results on the restored state equal those on the original (derived quantities recomputed on read)",
